@@ -95,6 +95,7 @@ fn build_packet(p: &P, plans: &mut HashMap<u8, Plan>, st: &mut Stats) -> Vec<u8>
             let (exts, fin) = ext_for(*ext);
             st.class_if(*ext == 3, "unknown-mandatory-ext");
             st.class_if(lab.is_zero6(), "zero-label");
+            st.class_if(*lab == Lab::ReUse, "sent-re-use-label");
             ref_complete(*lab, fin.unwrap_or(0x0800), &pdu_bytes(*len as usize, 5), &exts, fin.is_some())
         }
         P::First { lab, id, len, cut, ext } => {
@@ -139,7 +140,7 @@ fn build_packet(p: &P, plans: &mut HashMap<u8, Plan>, st: &mut Stats) -> Vec<u8>
                 RefPacket { start: false, end: false, lt: 3, frag_id: Some(*id), total_len: None, label: vec![], exts: vec![], ptype: None, first_type: None, payload: pdu_bytes((*n as usize).max(1), 3), crc: None }.encode(false)
             }
         }
-        P::Inter { id, n } => RefPacket { start: false, end: false, lt: 3, frag_id: Some(*id), total_len: None, label: vec![], exts: vec![], ptype: None, first_type: None, payload: pdu_bytes(*n as usize, 77), crc: None }.encode(false),
+        P::Inter { id, n } => { st.class("sent-stray-fragment"); RefPacket { start: false, end: false, lt: 3, frag_id: Some(*id), total_len: None, label: vec![], exts: vec![], ptype: None, first_type: None, payload: pdu_bytes(*n as usize, 77), crc: None }.encode(false) }
         P::End { id, crc_mode, extra } => {
             let (mut payload, crc) = match plans.remove(id) {
                 Some(pl) => (pl.pdu[pl.pos..].to_vec(), pl.crc),
@@ -156,7 +157,10 @@ fn build_packet(p: &P, plans: &mut HashMap<u8, Plan>, st: &mut Stats) -> Vec<u8>
             let crc = if *crc_mode == 1 { crc ^ 0x0100_0000 } else { crc };
             RefPacket { start: false, end: true, lt: 3, frag_id: Some(*id), total_len: None, label: vec![], exts: vec![], ptype: None, first_type: None, payload, crc: Some(crc) }.encode(false)
         }
-        P::Raw(b) => b.clone(),
+        P::Raw(b) => {
+            st.class("sent-raw-bytes");
+            b.clone()
+        }
     }
 }
 
@@ -402,8 +406,10 @@ pub fn property() -> Property {
             strategy,
             check,
             required_classes: &[
-                "delivered", "rej-crc", "rej-total-length", "rej-oversize", "rej-unknown-mandatory", "rej-zero-label", "rej-reuse-unresolvable",
-                "rej-undefined-id", "rej-no-storage", "rej-malformed", "fault-injected", "buffer-returned-in-error", "error-after-taking-a-buffer",
+                // generator health is judged by what the harness SENT (implementation-agnostic), the rej-* classes
+                // keyed by the crate's error kinds are reported for information only
+                "delivered", "end-wrong-crc", "end-wrong-length", "unknown-mandatory-ext", "zero-label", "sent-re-use-label", "sent-raw-bytes",
+                "sent-stray-fragment", "fault-injected", "error-after-taking-a-buffer",
             ],
         })],
     }
